@@ -341,6 +341,18 @@ func (rn *c20Runner) run(c c20Case) {
 		readEsc = "the operation returned the content of a canary file"
 	} else if p, ok := rn.g.canarySizes[res.size]; ok {
 		readEsc = fmt.Sprintf("the operation reported size %d, which is the size of canary %s", res.size, p)
+	} else if res.err != nil || len(res.read) > 0 || res.out != "" {
+		// the content hash of a canary in an error text or output can only come from reading it
+		txt := string(res.read) + " " + res.out
+		if res.err != nil {
+			txt += " " + res.err.Error()
+		}
+		for rel, hx := range rn.g.canaryHashes() {
+			if strings.Contains(txt, hx) {
+				readEsc = fmt.Sprintf("the operation's result carries the content digest of canary %s, a file outside the directory that was therefore read", rel)
+				break
+			}
+		}
 	}
 	rec.Eval(1)
 	rec.Count(c.Route+".cases", 1)
